@@ -175,13 +175,10 @@ theorem C15_step_consistent (c : Curve) (hc : Consistent c) (op : CurveOp) (c' :
   | setWeights ws => exact mk?_consistent _ _ _ _ (by simpa [curveStep] using h)
   | fitPoints pts nodes =>
     simp only [curveStep, Curve.fitPoints, bind, Except.bind] at h
-    split at h
-    · cases h
-    · split at h
-      · cases h
-      · split at h
-        · cases h
-        · exact mk?_consistent _ _ _ _ h
+    repeat' (split at h)
+    all_goals first
+      | (cases h; done)
+      | exact mk?_consistent _ _ _ _ h
 
 /-- **C15 (consistency).**  After any sequence of operations, raising or not, `len(ctrlpoints) = npts =
 len(knotvector) − degree − 1` and `len(weights) = npts` when present. -/
